@@ -26,8 +26,10 @@ def build_driver(repo):
     shutil.copy(os.path.join(ROOT, "replay", "driver", "src", "main.rs"), os.path.join(crate, "src", "main.rs"))
     # the `rand` feature of the crate (C18) is driven through a deterministic stream generator; if the rand crate cannot be
     # resolved offline the driver is built without it and the r* operations answer UNSUPPORTED
-    manifest = ('[package]\nname = "replay-driver"\nversion = "0.0.0"\nedition = "2021"\n[features]\nwithrand = ["dep:rand", "num-bigint/rand"]\n[dependencies]\n'
+    manifest = ('[package]\nname = "replay-driver"\nversion = "0.0.0"\nedition = "2021"\n[features]\nwithrand = ["dep:rand", "num-bigint/rand"]\n'
+                'withserde = ["dep:serde_json", "num-bigint/serde"]\n[dependencies]\n'
                 'num-bigint = { path = "%s" }\nnum-integer = "0.1.46"\nnum-traits = "0.2.18"\nrand = { version = "0.8", default-features = false, optional = true }\n'
+                'serde_json = { version = "1", optional = true }\n'
                 '[profile.dev]\nopt-level = 1\ndebug-assertions = true\noverflow-checks = true\n' % repo)
     with open(os.path.join(crate, "Cargo.toml"), "w") as f:
         f.write(manifest)
@@ -35,12 +37,15 @@ def build_driver(repo):
     if os.path.exists(lock) and not os.path.exists(os.path.join(crate, "Cargo.lock")):
         shutil.copy(lock, os.path.join(crate, "Cargo.lock"))
     env = dict(os.environ, CARGO_NET_OFFLINE="true", CARGO_TARGET_DIR=os.path.join(BUILD, "target"))
-    p = subprocess.run(["cargo", "build", "--offline", "-q", "--features", "withrand"], cwd=crate, env=env, capture_output=True, text=True, timeout=900)
+    first = ""
+    for feats in ("withrand,withserde", "withrand", "withserde", ""):
+        cmd = ["cargo", "build", "--offline", "-q"] + (["--features", feats] if feats else [])
+        p = subprocess.run(cmd, cwd=crate, env=env, capture_output=True, text=True, timeout=900)
+        if p.returncode == 0:
+            break
+        first = first or p.stderr[-1500:]
     if p.returncode != 0:
-        first = p.stderr[-1500:]
-        p = subprocess.run(["cargo", "build", "--offline", "-q"], cwd=crate, env=env, capture_output=True, text=True, timeout=900)
-        if p.returncode != 0:
-            return None, (first + "\n--- without rand ---\n" + p.stderr[-1500:])
+        return None, (first + "\n--- without optional features ---\n" + p.stderr[-1500:])
     return os.path.join(BUILD, "target", "debug", "replay-driver"), ""
 
 
@@ -531,6 +536,38 @@ def expected(case):
             except OverflowError:
                 return None
             return "%s %d" % (hx(v), st.pos)
+        if op in ("sser_u", "sser_i", "sde_u", "sde_i", "sround_u", "sround_i"):
+            # feature `serde` (C17), observed through JSON: BigUint = list of base-2^32 digits, least significant first, no trailing
+            # zero; BigInt = [sign as -1/0/1, that list]; reading accepts any u32 list (trailing zeros, odd length)
+            def d32(m):
+                out = []
+                while m:
+                    out.append(m & 0xffffffff)
+                    m >>= 32
+                return "[" + ",".join(str(x) for x in out) + "]"
+            if op == "sser_u":
+                return d32(I(0))
+            if op == "sser_i":
+                n = I(0)
+                return "[%d,%s]" % ((n > 0) - (n < 0), d32(abs(n)))
+            if op in ("sround_u", "sround_i"):
+                return "true %s" % hx(I(0))
+            try:
+                j = json.loads(a[0])
+            except ValueError:
+                return "Err"
+
+            def lst(x):
+                if not isinstance(x, list) or not all(isinstance(e, int) and not isinstance(e, bool) and 0 <= e < (1 << 32) for e in x):
+                    return None
+                return sum(e << (32 * i) for i, e in enumerate(x))
+            if op == "sde_u":
+                v = lst(j)
+                return "Err" if v is None else "Ok(%s)" % hx(v)
+            if not (isinstance(j, list) and len(j) == 2 and isinstance(j[0], int) and not isinstance(j[0], bool) and j[0] in (-1, 0, 1)):
+                return "Err"
+            v = lst(j[1])
+            return "Err" if v is None else "Ok(%s)" % hx(j[0] * v)
         if op in ("uhash_eq", "ihash_eq"):
             x0, y0 = I(0), I(1)
             return "%s Some(%s)" % ("true" if x0 == y0 else "false", "Less" if x0 < y0 else "Equal" if x0 == y0 else "Greater")
@@ -1065,6 +1102,29 @@ def bank(pid, tier, seed):
             cases.append(("iis_even", hx(a)))
         for b in (0, 1, 5, B64, big(rng, 3)):
             cases.append(("uis_multiple_of", hx(0), hx(b)))
+    elif pid == "C17":
+        vals = [0, 1, (1 << 32) - 1, 1 << 32, (1 << 32) + 1, (1 << 64) - 1, 1 << 64, (1 << 64) + 1, (1 << 96) - 1, 1 << 96, (1 << 128) + (1 << 32)]
+        vals += [a for a, _ in list(pairs(6))[::5]]
+        for v in vals:
+            cases.append(("sser_u", hx(v)))
+            cases.append(("sround_u", hx(v)))
+            for sg_ in (1, -1):
+                cases.append(("sser_i", hx(sg_ * v)))
+                cases.append(("sround_i", hx(sg_ * v)))
+            ds = []
+            m = v
+            while m:
+                ds.append(m & 0xffffffff)
+                m >>= 32
+            for pad in (0, 1, 2, 3):
+                lst = "[" + ",".join(str(x) for x in ds + [0] * pad) + "]"
+                cases.append(("sde_u", lst))
+                for sj in (-1, 0, 1, 2, -2, 127):
+                    cases.append(("sde_i", "[%d,%s]" % (sj, lst)))
+        for bad in ("[4294967296]", "[-1]", "5", "[1,[2]]", "[1.5]", "[\"1\"]", "null", "[1,2", "{}"):
+            cases.append(("sde_u", bad))
+        for bad in ("[1]", "[1,[1],2]", "[[1],1]", "[1,[4294967296]]", "[true,[1]]", "[1,5]", "[]", "[1.0,[1]]", "[300,[1]]"):
+            cases.append(("sde_i", bad))
     elif pid == "C18":
         def stream(n):
             pat = rng.choice(["rand", "small", "ones", "mixed"])
